@@ -78,6 +78,7 @@ const (
 	OpResAdd      = "resAdd"       // Resources.Add
 	OpResRemove   = "resRemove"    // Resources.Remove
 	OpDumpLoad    = "dumpLoad"     // DumpEntities + LoadEntities (C17 drives this itself)
+	OpFanout      = "fanout"       // N parents (components Add) and N children (components Rem, relation C), one child per parent
 	OpDumpSave    = "dumpSave"     // DumpEntities, kept for a later dumpRestore
 	OpDumpRestore = "dumpRestore"  // Reset + LoadEntities of the kept dump: back to the dump-time entity state
 	OpDeadRead    = "deadRead"     // read accessor with a dead handle (V selects it): must panic
@@ -112,6 +113,8 @@ func (o *Op) Describe() string {
 		s += fmt.Sprintf("(#%d c=%d tok=%v v=%d)", o.E, o.C, o.Tok, o.V)
 	case OpRelSet:
 		s += fmt.Sprintf("(#%d c=%d t=%d)", o.E, o.C, o.T)
+	case OpFanout:
+		s += fmt.Sprintf(" n=%d parents%v children%v rel=%d", o.N, o.Add, o.Rem, o.C)
 	case OpLockEpisode, OpLockDuring, OpLockLimit:
 		s += fmt.Sprintf(" n=%d v=%d attempts=%d script=%v", o.N, o.V, len(o.Sub), o.Script)
 		if o.F != nil {
